@@ -564,6 +564,14 @@ class Domain(object):
             v = self.eval(s.value, fr, state)
             for t in s.targets:
                 st = self.assign(t, v, fr, st, node)
+            if isinstance(s.value, ast.Dict) and v.kind == 'obj':
+                # remember constant-key entries of a dict literal
+                for k, val in zip(s.value.keys, s.value.values):
+                    if k is None:
+                        continue
+                    kv = self.eval(k, fr, state)
+                    if kv.kind == 'const':
+                        st = st.set(('S', v.name, repr(kv.name)), self.eval(val, fr, state))
         elif isinstance(s, ast.AugAssign):
             cur = self.eval(s.target, fr, state) if not isinstance(s.target, ast.Name) else self.lookup_name(s.target.id, fr, state)
             v = self.eval(s.value, fr, state)
